@@ -114,4 +114,3 @@ func main() {
 	}
 	os.Exit(exit)
 }
-
